@@ -2,7 +2,7 @@
    destruction with live callbacks included, and what the invariants give for it. *)
 From OlaBase Require Import Bytes.
 From Coq Require Import Sorted Permutation.
-From C12 Require Import Gen Model ProofsT ProofsF ProofsA ProofsB ProofsC ProofsD ProofsR ProofsE ProofsE2 ProofsP ProofsV.
+From C12 Require Import Gen Model ProofsT ProofsF ProofsA ProofsB ProofsC ProofsD ProofsR ProofsE ProofsE2 ProofsP ProofsV ProofsX.
 Local Open Scope N_scope.
 
 Inductive reachable (max : N) (discov : bool) (ms : list mitem) (ds : list bool)
@@ -294,4 +294,19 @@ Proof.
   - exists f. split; [reflexivity|]. split; [eapply history_final; eauto|].
     destruct (history_reach _ _ _ _ _ _ E); auto.
   - exfalso. eapply run_history_total; eauto.
+Qed.
+
+(* ---- a run only takes requests that were already queued ---- *)
+Lemma reach_run_after_queue max discov ms ds s f ag s' ag' :
+  reachable max discov ms ds s (f :: ag) -> step s f ag = (s', ag') ->
+  g_runs s' = g_runs s \/
+  exists e, g_runs s' = g_runs s ++ [e] /\
+    forall d, In d (run_dids e) -> d < h_ndid s' /\ ~ In d (flat_map run_dids (g_runs s)).
+Proof.
+  intros Hr H. pose proof (R_step _ _ _ _ _ _ _ _ _ Hr H) as Hr'.
+  destruct (step_runs _ _ _ _ _ H) as [E|(e & E)]; [left; exact E|right].
+  exists e. split; [exact E|]. intros d Hd. pose proof (reach_E _ _ _ _ _ _ Hr') as HE. split.
+  - eapply runs_below; [exact HE| |exact Hd]. rewrite E. apply in_or_app. right. left. reflexivity.
+  - pose proof (EP_nodup_runs _ _ _ _ _ _ _ HE) as Hn. rewrite E, flat_map_app in Hn. cbn in Hn.
+    rewrite app_nil_r in Hn. intros Hin. eapply nodup_app_disj; [exact Hn|exact Hin|exact Hd].
 Qed.
